@@ -41,6 +41,13 @@ def programs():
                                          "overloads": [["x", {"expr": O("B")}], ["y", {"expr": {"k": "tmpl", "text": "t{C}", "params": []}}]]},
                                      d2={"args": [["a", O("A", dk="const", dv=0)]], "dispatch": O("D", dk="const", dv="x"),
                                          "overloads": [["x", {"expr": O("S.X", dk="const", dv="sx")}], ["y", {"expr": O("E", dk="const", dv=1)}]]}))
+    # a Map over several dotted keys of one section: every assignment overrides all of them (siblings are merged, not replaced)
+    add("map-sibling-section-keys", prog({"k": "apply", "n": 9, "fn": "f1", "src": {"k": "map", "body": {"k": "tuple", "items": [O("S.X", dk="const", dv="dx"), O("S.Y", dk="const", dv="dy"), O("S")]},
+                                          "iters": [["S.X", {"k": "list", "items": [C(1), C(2)]}], ["A", {"k": "list", "items": [C("a")]}], ["S.Y", {"k": "list", "items": [C(10)]}]]}}))
+    # a key that is present with a null value is PRESENT: the default (and what the default reads) plays no part
+    add("null-valued-option", prog({"k": "tuple", "items": [DS(1), {"k": "cached", "spec": O("C", dk="tmpl", dv="{S.X} t")}]},
+                                   d1={"args": [["a", O("A", dk="spec", dv=O("B"))], ["c", O("E", dk="spec", dv=DS(2))]]},
+                                   d2={"args": [["x", O("S.Y", dk="const", dv="sy")]], "cache": "nocache"}))
     # an unhashable dispatch value (a list / section under the dispatch key) matches no branch: default or SwitchError
     add("unhashable-dispatch", prog({"k": "tuple", "items": [
         {"k": "coalesce", "members": [{"k": "switch", "disp": "D", "table": [["x", O("A")], ["y", O("B")]]}, C("no-branch")]},
@@ -183,6 +190,9 @@ def dictionaries():
         {"L": ["x", "y"], "A": 1},
         {"L": ["x", "y"], "A": 1, "B": 2},
         {"L": ["x"], "A": 1},
+        {"A": None, "B": 1, "E": None, "C": None, "S": {"X": 1, "Y": 1}},
+        {"A": None, "B": 2, "E": None, "C": None, "S": {"X": 2, "Y": 2}},
+        {"A": None, "E": None, "C": None},
         {"D": "x"},
         {"D": ["x"], "E": {"K": "x"}},
         {"D": ["x"], "E": ["x"], "A": 1, "B": 2},
